@@ -13,7 +13,7 @@ ID=${1:?property id}
 shift
 TIER=${VERIF_TIER:-quick}
 if [ "${1:-}" = quick ] || [ "${1:-}" = thorough ]; then TIER=$1; shift; fi
-B=$VERIF/.build/$ID
+B=$VERIF/.build/${VERIF_BUILD_TAG:-$ID}
 mkdir -p "$B"
 log() { echo "[check.sh] $*" >&2; }
 
